@@ -4,6 +4,8 @@
 -/
 import CedarProofs.Prefix
 import CedarProofs.IncrPrefix
+import CedarProofs.TypedPrefix
+import CedarProofs.PrefixOld
 
 namespace Cedar.C02
 
@@ -249,5 +251,248 @@ theorem reflection_rejected :
     (match A.sendAll [([1, 2], 1)] with
      | .ok (_, fs) => Stream.deliver A fs
      | .error _ => [[0]]) = [] := by decide
+
+/-! ### The typed layer's receive path
+
+`Message.ensureData` / `Message.GetRemainingBytes` pull frames with `ReceiveFrameWithEnd` and end
+the message at the first frame whose end flag is non-zero — any of 1..10, not only 1
+(`Stream.recvRestAux`). -/
+
+/-- **recv_prefix_typed** (fresh session): under the adversary of `recv_prefix`, what the typed
+    layer's message loop hands the application before its first error is a prefix of the messages
+    sent AS THE TYPED LAYER DELIMITS THEM (`messagesOfT`: a message ends at the first non-zero end
+    flag), for every send history — whatever flags the sender used — and every rewriting of the
+    wire; no forged, replayed, re-flagged, reflected or truncated frame ends, extends or starts a
+    message. -/
+theorem recv_prefix_typed (S S' R R' : Stream) (k : Nat) (ivS ivR : IV) (ops opsR : List SendOp)
+    (sent own w : List WireFrame) (hivS : ivS.w0 < 2^32) (hivR : ivR.w0 < 2^32)
+    (hsep : ivS.tail ≠ ivR.tail)
+    (hsend : (S.setKey k ivS).sendAll ops = .ok (S', sent))
+    (hown : (R.setKey k ivR).sendAll opsR = .ok (R', own))
+    (hadv : AdvWire k sent own w) (n : Nat) :
+    Stream.deliverRestFuel n (R.setKey k ivR) w <+: messagesOfT [] ops := by
+  obtain ⟨items, hsent, hops, hlim, _, _⟩ :=
+    sendAll_spec ops _ S' 0 sent (setKey_sendInv S k ivS) hsend
+  obtain ⟨itemsR, hownE, _, _, _, _⟩ :=
+    sendAll_spec opsR _ R' 0 own (setKey_sendInv R k ivR) hown
+  have hr : RecvInv (R.setKey k ivR) k ivS 0 0 :=
+    ⟨rfl, rfl, rfl, by simp [Stream.setKey], fun h => absurd rfl h⟩
+  have := deliverRest_prefix (dg := (S.dig.fs, S.dig.fr)) (ownIV := ivR) hivS hlim n
+    (R.setKey k ivR) w 0 (Nat.zero_le _) hr (fun _ => ⟨rfl, hivR⟩)
+    (advWire_advFrame (dgR := (R.dig.fs, R.dig.fr)) hsep hsent hownE hadv)
+  simpa [hops] using this
+
+/-- with the end flags the sending API produces (0 / 1) the typed layer's messages are the
+    messages sent: the same prefix statement as `recv_prefix`, boundaries intact -/
+theorem recv_prefix_typed_01 (S S' R R' : Stream) (k : Nat) (ivS ivR : IV) (ops opsR : List SendOp)
+    (sent own w : List WireFrame) (hivS : ivS.w0 < 2^32) (hivR : ivR.w0 < 2^32)
+    (hsep : ivS.tail ≠ ivR.tail) (hfl : ∀ op ∈ ops, op.2 ≤ 1)
+    (hsend : (S.setKey k ivS).sendAll ops = .ok (S', sent))
+    (hown : (R.setKey k ivR).sendAll opsR = .ok (R', own))
+    (hadv : AdvWire k sent own w) (n : Nat) :
+    Stream.deliverRestFuel n (R.setKey k ivR) w <+: messagesOf [] ops := by
+  rw [← messagesOfT_eq ops [] hfl]
+  exact recv_prefix_typed S S' R R' k ivS ivR ops opsR sent own w hivS hivR hsep hsend hown hadv n
+
+/-- **recv_prefix_typed_midstream**: the same from any reachable state of an established session -/
+theorem recv_prefix_typed_midstream (S S' R R' : Stream) (k : Nat) (iv ivR : IV) (dg dgR : Digest × Digest) (c0 cR : Nat)
+    (ops opsR : List SendOp) (sent own w : List WireFrame) (hiv : iv.w0 < 2^32) (hivR : ivR.w0 < 2^32)
+    (hsep : iv.tail ≠ ivR.tail)
+    (hS : SendInv S k iv dg c0) (hR : RecvInv R k iv c0 0) (hRs : SendInv R k ivR dgR cR)
+    (hsend : S.sendAll ops = .ok (S', sent)) (hown : R.sendAll opsR = .ok (R', own))
+    (hadv : AdvWire k sent own w) (n : Nat) :
+    Stream.deliverRestFuel n R w <+: messagesOfT [] ops := by
+  obtain ⟨items, hsent, hops, hlim, _, _⟩ := sendAll_spec ops S S' c0 sent hS hsend
+  obtain ⟨itemsR, hownE, _, _, _, _⟩ := sendAll_spec opsR R R' cR own hRs hown
+  have := deliverRest_prefix (dg := dg) (ownIV := ivR) hiv hlim n R w 0 (Nat.zero_le _) hR (fun _ => ⟨hRs.iv, hivR⟩)
+    (advWire_advFrame hsep hsent hownE hadv)
+  simpa [hops] using this
+
+/-! Non-vacuity: the typed loop on the demo wire delivers all three messages; with the middle frame
+    of the first message dropped, nothing; with the LAST frame's flag rewritten 1 -> 7 by the
+    adversary the frame is rejected (the flag is in the AAD), so flags 2..10 cannot be forged into
+    message ends; a sender that itself uses flag 7 ends a message there. -/
+example : Stream.deliverRestFuel 9 (({} : Stream).setKey 7 ⟨5, []⟩) demoSent = [[1,2,3], [], [9,9]] := by decide
+example : Stream.deliverRestFuel 9 (({} : Stream).setKey 7 ⟨5, []⟩) (demoSent.eraseIdx 1) = [] := by decide
+example : Stream.deliverRestFuel 9 (({} : Stream).setKey 7 ⟨5, []⟩)
+    (demoSent.take 3 ++ (demoSent.drop 3).map (fun f => { f with flag := 7 })) = [[1,2,3], []] := by decide
+example : (match ((({} : Stream).setKey 7 ivA).sendAll [([1], 0), ([2], 7), ([3], 1)]) with
+    | .ok (_, fs) => Stream.deliverRestFuel 9 (({} : Stream).setKey 7 ⟨5, []⟩) fs
+    | .error _ => []) = [[1, 2], [3]] := by decide
+
+/-! ### Replay across connections of one session
+
+A resumed connection is keyed with the SAME session key as the earlier connections of the session,
+so the adversary also holds every protected frame recorded on those (`old`, both directions).
+`AdvWire` excludes them by hypothesis. `AdvWireS` adds them; the two facts that make them harmless
+are stated as explicit session hypotheses (`OldConnections`), like `hsep`. -/
+
+/-- `AdvWire` plus the frames `old` recorded on earlier connections of the session -/
+def AdvWireS (k : Nat) (sent own old w : List WireFrame) : Prop :=
+  ∀ g ∈ w, match g.body with
+    | .raw _ => True
+    | .ct ivo c => (∀ i, ivo = some i → i.w0 < 2^32) ∧
+                   (c.key = k → (∃ f ∈ sent, ∃ ivo', f.body = .ct ivo' c) ∨
+                                (∃ f ∈ own, ∃ ivo', f.body = .ct ivo' c) ∨
+                                (∃ f ∈ old, ∃ ivo', f.body = .ct ivo' c))
+
+/-- Session hypotheses about the recorded frames, seen from the current receiver (sender base IV
+    `ivS`, expected first-frame digest pair `rdg`):
+    `iv_fresh` — every earlier connection used, in each direction, a base IV whose last 12 bytes
+    differ from the current sender's (independent `crypto/rand` draws per `SetSymmetricKey`);
+    `transcript_fresh` — an earlier connection's first frames were sealed over another cleartext
+    transcript (the resumption reply carries a fresh `ResumeNonce`; in the legacy no-reply mode this
+    FAILS: `C06.noreply_replay_fails`, known finding F-C06-noreply-replay). -/
+structure OldConnections (k : Nat) (ivS : IV) (rdg : Digest × Digest) (old : List WireFrame) : Prop where
+  iv_fresh : ∀ f ∈ old, ∀ ivo c, f.body = .ct ivo c → c.key = k → c.nonce.tail ≠ ivS.tail
+  transcript_fresh : ∀ f ∈ old, ∀ ivo c, f.body = .ct ivo c → c.key = k → c.aad.digests ≠ some rdg
+
+theorem advWireS_advFrameO {k iv ivR dg dgR rdg c0 cR items itemsR sent own old w}
+    (hsep : iv.tail ≠ ivR.tail)
+    (hsent : sent = framesFrom k iv dg c0 items) (hown : own = framesFrom k ivR dgR cR itemsR)
+    (hold : OldConnections k iv rdg old)
+    (h : AdvWireS k sent own old w) :
+    ∀ g ∈ w, AdvFrameO k iv dg ivR rdg c0 items g := by
+  intro g hg
+  have := h g hg
+  unfold AdvFrameO
+  cases hb : g.body with
+  | raw b => trivial
+  | ct ivo c =>
+    simp only [hb] at this ⊢
+    refine ⟨this.1, fun hk => ?_⟩
+    rcases this.2 hk with ⟨f, hf, ivo', hfb⟩ | ⟨f, hf, ivo', hfb⟩ | ⟨f, hf, ivo', hfb⟩
+    · left
+      rw [hsent] at hf
+      obtain ⟨j, it, hj, hfe⟩ := mem_framesFrom items c0 f hf
+      refine ⟨j, it, hj, ?_⟩
+      rw [hfe] at hfb
+      simp only [frameAt, Body.ct.injEq] at hfb
+      exact hfb.2.symm
+    · right; left
+      rw [hown] at hf
+      exact own_is_foreign hsep hf hfb
+    · right; right
+      exact ⟨hold.iv_fresh f hf ivo' c hfb hk, hold.transcript_fresh f hf ivo' c hfb hk⟩
+
+/-- **recv_prefix_resumed**: `recv_prefix` against the adversary that also replays, re-heads and
+    re-IVs frames recorded on EARLIER connections of the same session (same key): under the two
+    session hypotheses of `OldConnections`, `ReceiveCompleteMessage` still delivers only a prefix of
+    the messages sent on THIS connection. Not only the first frame (`C06.replay_rejected`): every
+    position of every message. -/
+theorem recv_prefix_resumed (S S' R R' : Stream) (k : Nat) (ivS ivR : IV) (ops opsR : List SendOp)
+    (sent own old w : List WireFrame) (hivS : ivS.w0 < 2^32) (hivR : ivR.w0 < 2^32)
+    (hsep : ivS.tail ≠ ivR.tail)
+    (hold : OldConnections k ivS (R.dig.fr, R.dig.fs) old)
+    (hsend : (S.setKey k ivS).sendAll ops = .ok (S', sent))
+    (hown : (R.setKey k ivR).sendAll opsR = .ok (R', own))
+    (hadv : AdvWireS k sent own old w) (n : Nat) :
+    Stream.deliverFuel n (R.setKey k ivR) w <+: messagesOf [] ops := by
+  obtain ⟨items, hsent, hops, hlim, _, _⟩ :=
+    sendAll_spec ops _ S' 0 sent (setKey_sendInv S k ivS) hsend
+  obtain ⟨itemsR, hownE, _, _, _, _⟩ :=
+    sendAll_spec opsR _ R' 0 own (setKey_sendInv R k ivR) hown
+  have hr : RecvInv (R.setKey k ivR) k ivS 0 0 :=
+    ⟨rfl, rfl, rfl, by simp [Stream.setKey], fun h => absurd rfl h⟩
+  have hd : ((R.setKey k ivR).dig.fr, (R.setKey k ivR).dig.fs) = (R.dig.fr, R.dig.fs) := by
+    simp [Stream.setKey, Dig.finalize, Dig.fs, Dig.fr]
+  have := deliver_prefixO (dg := (S.dig.fs, S.dig.fr)) (ownIV := ivR) (rdg := (R.dig.fr, R.dig.fs)) hivS hlim n
+    (R.setKey k ivR) w 0 (Nat.zero_le _) hr (fun _ => ⟨rfl, hivR, hd⟩)
+    (advWireS_advFrameO (dgR := (R.dig.fs, R.dig.fr)) hsep hsent hownE hold hadv)
+  simpa [hops] using this
+
+/-- the same for the typed layer's receive loop -/
+theorem recv_prefix_typed_resumed (S S' R R' : Stream) (k : Nat) (ivS ivR : IV) (ops opsR : List SendOp)
+    (sent own old w : List WireFrame) (hivS : ivS.w0 < 2^32) (hivR : ivR.w0 < 2^32)
+    (hsep : ivS.tail ≠ ivR.tail)
+    (hold : OldConnections k ivS (R.dig.fr, R.dig.fs) old)
+    (hsend : (S.setKey k ivS).sendAll ops = .ok (S', sent))
+    (hown : (R.setKey k ivR).sendAll opsR = .ok (R', own))
+    (hadv : AdvWireS k sent own old w) (n : Nat) :
+    Stream.deliverRestFuel n (R.setKey k ivR) w <+: messagesOfT [] ops := by
+  obtain ⟨items, hsent, hops, hlim, _, _⟩ :=
+    sendAll_spec ops _ S' 0 sent (setKey_sendInv S k ivS) hsend
+  obtain ⟨itemsR, hownE, _, _, _, _⟩ :=
+    sendAll_spec opsR _ R' 0 own (setKey_sendInv R k ivR) hown
+  have hr : RecvInv (R.setKey k ivR) k ivS 0 0 :=
+    ⟨rfl, rfl, rfl, by simp [Stream.setKey], fun h => absurd rfl h⟩
+  have hd : ((R.setKey k ivR).dig.fr, (R.setKey k ivR).dig.fs) = (R.dig.fr, R.dig.fs) := by
+    simp [Stream.setKey, Dig.finalize, Dig.fs, Dig.fr]
+  have := deliverRest_prefixO (dg := (S.dig.fs, S.dig.fr)) (ownIV := ivR) (rdg := (R.dig.fr, R.dig.fs)) hivS hlim n
+    (R.setKey k ivR) w 0 (Nat.zero_le _) hr (fun _ => ⟨rfl, hivR, hd⟩)
+    (advWireS_advFrameO (dgR := (R.dig.fs, R.dig.fr)) hsep hsent hownE hold hadv)
+  simpa [hops] using this
+
+/-- the same for the incremental API (`StartMessageRead`, `ReadMessageBytes(chunk)`…, `EndMessageRead`) -/
+theorem recv_prefix_incremental_resumed (S S' R R' : Stream) (k : Nat) (ivS ivR : IV) (ops opsR : List SendOp)
+    (sent own old w : List WireFrame) (hivS : ivS.w0 < 2^32) (hivR : ivR.w0 < 2^32)
+    (hsep : ivS.tail ≠ ivR.tail) (hfl : ∀ op ∈ ops, op.2 ≤ 1)
+    (hclean : R.inMessage = false) (hbuf : R.recvBuf = [])
+    (hold : OldConnections k ivS (R.dig.fr, R.dig.fs) old)
+    (hsend : (S.setKey k ivS).sendAll ops = .ok (S', sent))
+    (hown : (R.setKey k ivR).sendAll opsR = .ok (R', own))
+    (hadv : AdvWireS k sent own old w) (chunk : Nat) (hchunk : 0 < chunk) (fuel : Nat) :
+    Stream.deliverIncFuel fuel chunk (R.setKey k ivR) w <+: messagesOf [] ops := by
+  obtain ⟨items, hsent, hops, hlim, _, _⟩ :=
+    sendAll_spec ops _ S' 0 sent (setKey_sendInv S k ivS) hsend
+  obtain ⟨itemsR, hownE, _, _, _, _⟩ :=
+    sendAll_spec opsR _ R' 0 own (setKey_sendInv R k ivR) hown
+  have hr : RecvInv (R.setKey k ivR) k ivS 0 0 :=
+    ⟨rfl, rfl, rfl, by simp [Stream.setKey], fun h => absurd rfl h⟩
+  have hd : ((R.setKey k ivR).dig.fr, (R.setKey k ivR).dig.fs) = (R.dig.fr, R.dig.fs) := by
+    simp [Stream.setKey, Dig.finalize, Dig.fs, Dig.fr]
+  have := deliverInc_prefixO (dg := (S.dig.fs, S.dig.fr)) (ownIV := ivR) (rdg := (R.dig.fr, R.dig.fs)) hchunk hivS hlim
+    (items_flags hops hfl) fuel (R.setKey k ivR) w 0 (Nat.zero_le _) hr (fun _ => ⟨rfl, hivR, hd⟩)
+    (advWireS_advFrameO (dgR := (R.dig.fs, R.dig.fr)) hsep hsent hownE hold hadv) hclean hbuf
+  simpa [hops] using this
+
+/-- the same for plain `ReceiveFrame` (GetSecret / GetFile): a prefix of the frame payloads -/
+theorem recv_prefix_frames_resumed (S S' R R' : Stream) (k : Nat) (ivS ivR : IV) (ops opsR : List SendOp)
+    (sent own old w : List WireFrame) (hivS : ivS.w0 < 2^32) (hivR : ivR.w0 < 2^32)
+    (hsep : ivS.tail ≠ ivR.tail)
+    (hold : OldConnections k ivS (R.dig.fr, R.dig.fs) old)
+    (hsend : (S.setKey k ivS).sendAll ops = .ok (S', sent))
+    (hown : (R.setKey k ivR).sendAll opsR = .ok (R', own))
+    (hadv : AdvWireS k sent own old w) :
+    Stream.deliverFrames (R.setKey k ivR) w <+: ops.map Prod.fst := by
+  obtain ⟨items, hsent, hops, hlim, _, _⟩ :=
+    sendAll_spec ops _ S' 0 sent (setKey_sendInv S k ivS) hsend
+  obtain ⟨itemsR, hownE, _, _, _, _⟩ :=
+    sendAll_spec opsR _ R' 0 own (setKey_sendInv R k ivR) hown
+  have hr : RecvInv (R.setKey k ivR) k ivS 0 0 :=
+    ⟨rfl, rfl, rfl, by simp [Stream.setKey], fun h => absurd rfl h⟩
+  have hd : ((R.setKey k ivR).dig.fr, (R.setKey k ivR).dig.fs) = (R.dig.fr, R.dig.fs) := by
+    simp [Stream.setKey, Dig.finalize, Dig.fs, Dig.fr]
+  have := deliverFrames_prefixO (dg := (S.dig.fs, S.dig.fr)) (ownIV := ivR) (rdg := (R.dig.fr, R.dig.fs)) hivS hlim
+    w (R.setKey k ivR) 0 (Nat.zero_le _) hr (fun _ => ⟨rfl, hivR, hd⟩)
+    (advWireS_advFrameO (dgR := (R.dig.fs, R.dig.fr)) hsep hsent hownE hold hadv)
+  have hp : items.map Item.plain = ops.map Prod.fst := by
+    rw [← hops, List.map_map]; rfl
+  simpa [hp] using this
+
+/-- `AdvWire` is the special case with nothing recorded -/
+theorem advWire_advWireS {k sent own w} (h : AdvWire k sent own w) : AdvWireS k sent own [] w := by
+  intro g hg
+  have := h g hg
+  cases hb : g.body with
+  | raw b => trivial
+  | ct ivo c =>
+    simp only [hb] at this ⊢
+    exact ⟨this.1, fun hk => (this.2 hk).elim .inl (fun x => .inr (.inl x))⟩
+
+/-! Non-vacuity: an earlier connection of the session (key 7, another base IV, a one-byte cleartext
+    exchange, so other digests) whose recorded frames meet `OldConnections`; replayed in front of /
+    inside / behind the current connection's frames they are rejected and delivery stops there. -/
+def ivOld : IV := ⟨3, [9,9,9,9,9,9,9,9,9,9,9,9]⟩
+def oldSent : List WireFrame :=
+  match (((({} : Stream).feedRecv [1]).setKey 7 ivOld).sendAll [([5, 5], 1), ([6], 1)]) with
+  | .ok (_, fs) => fs
+  | .error _ => []
+example : oldSent.length = 2 ∧ oldSent.all (fun f => match f.body with
+    | .ct _ c => c.key == 7 && c.nonce.tail != ivA.tail && c.aad.digests != some (.zero, .zero)
+    | .raw _ => false) = true := by decide
+example : Stream.deliver (({} : Stream).setKey 7 ⟨5, []⟩) (demoSent ++ oldSent) = [[1,2,3], [], [9,9]] := by decide
+example : Stream.deliver (({} : Stream).setKey 7 ⟨5, []⟩) (oldSent ++ demoSent) = [] := by decide
+example : Stream.deliver (({} : Stream).setKey 7 ⟨5, []⟩) (demoSent.take 2 ++ oldSent.drop 1 ++ demoSent.drop 2) = [[1,2,3]] := by decide
 
 end Cedar.C02
